@@ -1352,17 +1352,14 @@ impl TextSelectionSet {
         if self.is_empty() {
             None
         } else {
-            if self.sorted {
-                self.data.get(self.data.len() - 1)
-            } else {
-                let mut rightmost: Option<&TextSelection> = None;
-                for item in self.iter() {
-                    if rightmost.is_none() || item.end > rightmost.unwrap().end {
-                        rightmost = Some(item);
-                    }
+            //note: a sorted set is ordered by begin (then end), so its last item does not necessarily have the highest end offset
+            let mut rightmost: Option<&TextSelection> = None;
+            for item in self.iter() {
+                if rightmost.is_none() || item.end > rightmost.unwrap().end {
+                    rightmost = Some(item);
                 }
-                rightmost
             }
+            rightmost
         }
     }
 
